@@ -1112,3 +1112,34 @@ func tail(s string, n int) string {
 	}
 	return s
 }
+
+// goTestOverlay runs one test of a file placed into a package of the repository by overlay.
+func goTestOverlay(repo, pkg, src, test string, race bool) (out string, failed, built bool) {
+	pkgDir := filepath.Join(repo, pkg)
+	ov := map[string]any{"Replace": map[string]string{filepath.Join(pkgDir, "zz_govc_bounded_test.go"): src}}
+	gen := filepath.Join(repo, "webserver/dashboard/csp/hashes_gen.go")
+	if _, err := os.Stat(gen); err != nil {
+		stub := filepath.Join(scratch(), "csp_stub.go")
+		os.WriteFile(stub, []byte(cspStub), 0o644)
+		ov["Replace"].(map[string]string)[gen] = stub
+	}
+	ovFile := filepath.Join(scratch(), fmt.Sprintf("overlay_b_%d.json", time.Now().UnixNano()))
+	b, _ := json.Marshal(ov)
+	os.WriteFile(ovFile, b, 0o644)
+	args := []string{"test", "-overlay", ovFile, "-vet=off", "-count=1", "-timeout", "120s", "-run", "^" + test + "$", "./" + pkg}
+	if race {
+		args = append(args[:1], append([]string{"-race"}, args[1:]...)...)
+	}
+	cmd := exec.Command("go", args...)
+	cmd.Dir = repo
+	cmd.Env = append(os.Environ(), "GOFLAGS=-mod=mod", "GOPROXY=off")
+	o, err := cmd.CombinedOutput()
+	out = string(o)
+	if err == nil {
+		return out, false, strings.Contains(out, "ok ")
+	}
+	if strings.Contains(out, "--- FAIL") || strings.Contains(out, "panic:") || strings.Contains(out, "DATA RACE") {
+		return out, true, true
+	}
+	return out, false, false
+}
